@@ -20,7 +20,9 @@ from ..oracle import c11_ref as ref
 RULES["C11"] = (
     "Meshes from the template pool (tetra, box, octa, icosphere, UV sphere = convex; star prisms, torus = non-convex / genus 1; "
     "two disjoint bodies; open by face deletion; extruded polyominoes (own grid construction: L / U / C / comb outlines, frames with "
-    "tongues = non-convex through-holes whose centroid lies in the material) for the capping sub-check cap_holes), either with INTEGER coordinates (lattice 1..100, unrotated) or jittered / rotated / "
+    "tongues = non-convex through-holes whose centroid lies in the material; concentric rings = islands with holes inside through-holes) and "
+    "cavity shells (2-4 concentric copies of a template wound alternately outward / inward: body floating in a cavity) for the capping "
+    "sub-checks cap_holes / cap_nested (sections nested 3 and 4 deep), either with INTEGER coordinates (lattice 1..100, unrotated) or jittered / rotated / "
     "translated / scaled (1e-2..1e2) floats. Planes: general position; through a mesh vertex; along a mesh edge; in a face; through "
     "three vertices; through 1-3 edge midpoints; lattice point with small integer normal; each of these optionally perturbed by "
     "1e-10..1e-7 (near class) — on lattice meshes the normal is an integer vector so every dot product is exact and all 10 sign "
@@ -68,6 +70,22 @@ def build_mesh(ms):
         if ms.get("place") is not None:
             Mx = np.asarray(ms["place"], dtype=np.float64)
             V = V @ Mx[:3, :3].T + Mx[:3, 3]
+    elif ms.get("shells") is not None:
+        # concentric scaled copies of one centred, star-shaped template, alternately wound outward / inward:
+        # shell > cavity > body floating in the cavity > cavity in that body (sections nested 2..4 deep)
+        sh = ms["shells"]
+        V0, F0 = gmesh.build({"parts": [dict(sh["part"], offset=[0.0, 0.0, 0.0], scale=1.0)]})
+        Vs, Fs, n0 = [], [], 0
+        for i, f in enumerate(sh["factors"]):
+            Vs.append(V0 * float(f))
+            Fs.append((F0[:, ::-1] if i % 2 else F0) + n0)
+            n0 += len(V0)
+        V, F = np.vstack(Vs), np.vstack(Fs)
+        if sh.get("lattice"):
+            V = np.round(V * int(sh["lattice"]))
+        if ms.get("place") is not None:
+            Mx = np.asarray(ms["place"], dtype=np.float64)
+            V = V @ Mx[:3, :3].T + Mx[:3, 3]
     else:
         V, F = gmesh.build(ms["spec"])
     if ms.get("drop"):
@@ -91,6 +109,8 @@ def build_mesh(ms):
     convex = bool(closed and nondeg and ncomp == 1 and ref.weakly_convex(V, F, integer=lattice))
     if cells_info is not None:
         trusted, kinds = True, "cells"  # embedded by construction
+    elif ms.get("shells") is not None:
+        trusted, kinds = True, "shells%d" % len(ms["shells"]["factors"])  # factors >= 0.2 apart: disjoint nested surfaces
     else:
         trusted = (ms["spec"].get("lattice") or 100) >= 100  # displacement <= 0.005 keeps templates embedded
         kinds = ms["spec"]["parts"][0]["kind"] if len(ms["spec"]["parts"]) == 1 else "multibody"
@@ -676,9 +696,11 @@ def b_cap(case, ctx):
         mesh = trimesh.Trimesh(V.copy(), F.copy(), process=False)
         shape = "convex" if M["convex"] else ("multibody" if M["ncomp"] > 1 else "nonconvex")
         base = f"C11.cap|{engine}|{shape}|{pk}"
+        if case["mesh"].get("shells") is not None:
+            ctx.note(cls="nest:shells%d:%s" % (len(case["mesh"]["shells"]["factors"]), engine))
         if M["cells"] is not None:
             ci = M["cells"]
-            ctx.note(cls=["cells:holes" if ci["holes"] else "cells:no_hole"] + [f"cells:{k}:{engine}" for k in ("hole_nonconvex", "hole_centroid_in_material", "outline_nonconvex") if ci[k]])
+            ctx.note(cls=["cells:depth%d:%s" % (min(ci["depth"], 5), engine), "cells:holes" if ci["holes"] else "cells:no_hole"] + [f"cells:{k}:{engine}" for k in ("hole_nonconvex", "hole_centroid_in_material", "outline_nonconvex") if ci[k]])
         ctx.note(nontrivial=bool((signs > 0).any() and (signs < 0).any()),
                  cls=[M["label"], "cap:" + engine, "cap:" + shape, "capplane:" + pk, "nplanes:%d" % len(planes)] + code_classes(sf))
         cl = []
@@ -736,7 +758,8 @@ def b_cap(case, ctx):
             except Exception as e:  # raised by the library call: same root-cause classes as a wrong result
                 from ..core import trimesh_frame
                 fr = trimesh_frame(e)
-                if not res and cause is None:
+                if not res:
+                    # below the documented resolution (features under 100 tol.merge): like every other clause
                     unresolved_any = True
                     continue
                 raise Violation(sig + f"|exc|{type(e).__name__}|{fr[0] + ':' + fr[1] if fr else '?'}", f"slice_plane(cap=True, engine={engine}) raised {type(e).__name__}: {e}")
@@ -936,6 +959,42 @@ def cells_cap_case(draw):
     return {"mesh": ms, "planes": planes, "engine": draw(st.sampled_from(ENGINES or ["earcut"]))}
 
 
+@st.composite
+def nested_cap_case(draw):
+    """solids whose sections are nested three and four deep: islands (with holes) inside through-holes, bodies (with
+    cavities) floating in cavities"""
+    if draw(st.booleans()):
+        ms = {"cells": draw(gcells.cells_spec(families=["nested"]))}
+        kinds = ["axis", "axis", "axis", "general", "general", "mid", "vertex", "three"]
+    else:
+        kind = draw(st.sampled_from(["box", "box", "octa", "icos", "uvsphere", "prism"]))
+        part = {"kind": kind}
+        if kind == "box":
+            part["ext"] = [draw(st.sampled_from([2.0, 3.0, 4.0])) for _ in range(3)]
+        elif kind == "icos":
+            part["sub"] = 0
+        elif kind == "uvsphere":
+            part["nu"], part["nv"] = draw(st.integers(3, 6)), draw(st.integers(2, 4))
+        elif kind == "prism":
+            part["radii"] = [draw(_f(0.7, 1.5)) for _ in range(draw(st.integers(3, 6)))]
+            part["height"] = draw(_f(1.0, 3.0))
+        k = draw(st.sampled_from([2, 3, 3, 4]))
+        factors = [1.0, 0.7, 0.45, 0.2][:k]
+        ms = {"shells": {"part": part, "factors": factors}}
+        if draw(st.booleans()):
+            ms["shells"]["lattice"] = 100
+        kinds = ["general", "general", "general", "vertex", "vertex", "three", "axis", "mid", "edge"]
+    if draw(st.integers(0, 2)) == 0:
+        ms["place"] = draw(gmat.matrix(classes=["rotation", "rigid"], tscale=draw(st.sampled_from([0.0, 10.0]))))["M"]
+        if draw(st.booleans()):
+            ms["scale"] = draw(st.sampled_from([0.1, 10.0]))
+    p = draw(plane_spec(near_ok=False, kinds=kinds))
+    if "cells" in ms and p["kind"] == "axis" and draw(st.integers(0, 3)) != 0:
+        p["w"] = [0, 0, draw(st.sampled_from([1, -1]))]
+        p["u"][2] = draw(st.sampled_from([0.25, 0.5, 0.5, 0.75]))
+    return {"mesh": ms, "planes": [p], "engine": draw(st.sampled_from(ENGINES or ["earcut"]))}
+
+
 # --------------------------------------------------------------------------------------------- sub-checks
 
 
@@ -959,8 +1018,14 @@ def s_cap_holes(ctx):
     ctx.given("C11.cap", cells_cap_case(), n={"quick": 1000, "thorough": 20000})
 
 
+@subcheck("C11", "cap_nested", shards={"quick": 4, "thorough": 12})
+def s_cap_nested(ctx):
+    ctx.given("C11.cap", nested_cap_case(), n={"quick": 800, "thorough": 16000})
+
+
 REQUIRED_CLASSES["C11"] = [f"code:{c}" for c in (0, 2, 4, 6, 8, 12, 14, 16, 20, 28)] + [
     "slice:inside", "slice:outside", "slice:quad", "slice:tri", "slice:tri_vertex_on_plane", "slice:coplanar_kept", "slice:coplanar_dropped",
     "signs:exact", "signs:tol", "closed_demanded", "cap:convex_half_checked", "subset:some", "multiplane:vertex", "nplanes:2",
 ] + ["sp:" + a + b + c for a in "-0+" for b in "-0+" for c in "-0+"] + ["cap:" + e for e in ENGINES] + [
-    "cap:cells_half_checked", "cap:location_checked", "cells:holes"] + [f"cells:{k}:{e}" for k in ("hole_nonconvex", "hole_centroid_in_material", "outline_nonconvex") for e in ENGINES]
+    "cap:cells_half_checked", "cap:location_checked", "cells:holes"] + [f"cells:depth{d}:{e}" for d in (3, 4) for e in ENGINES] + [
+    f"nest:shells{k}:{e}" for k in (3, 4) for e in ENGINES] + [f"cells:{k}:{e}" for k in ("hole_nonconvex", "hole_centroid_in_material", "outline_nonconvex") for e in ENGINES]
